@@ -203,6 +203,12 @@ LANGS: typing.Dict[str, typing.Tuple[str, typing.Optional[dict]]] = {
     "cetl": ("cpp", {"std": "cetl++14-17"}),
     "py": ("py", None),
     "html": ("html", None),
+    # the shipped templates of the tree under test, handed over as a USER template directory that lives next to the
+    # inputs of each location (<loc>/tpl/<lang>): its position relative to the output directory differs between locations
+    "c+tpl": ("c", {"_tpl": True}),
+    "cpp17+tpl": ("cpp", {"std": "c++17", "_tpl": True}),
+    "py+tpl": ("py", {"_tpl": True}),
+    "html+tpl": ("html", {"_tpl": True}),
 }
 
 CLOCKS = ["2024", "epoch", "2024+1s", "9999"]
@@ -224,6 +230,8 @@ CORE_CFGS: typing.List[Cfg] = [
     ("xroot", "c", False),
     ("deep", "py", True),
     ("chains", "py", True),
+    ("fan", "cpp17+tpl", True),
+    ("fan", "c+tpl", True),
     ("multi", "html", True),
     ("case", "html", True),
 ]
@@ -251,6 +259,8 @@ def all_cfgs() -> typing.List[Cfg]:
     for n, d in NAMESPACES.items():
         for l in LANGS:
             if "targets" in d and LANGS[l][0] not in d["targets"]:
+                continue
+            if l.endswith("+tpl") and n != "fan":
                 continue
             for s in (True, False) if "targets" not in d else (True,):
                 out.append((n, l, s))
@@ -315,6 +325,13 @@ class Locations:
                     p.parent.mkdir(parents=True, exist_ok=True)
                     p.write_text(text, encoding="utf-8")
             self.outs[loc].mkdir(parents=True, exist_ok=True)
+            from vf.core import REPO  # pylint: disable=import-outside-toplevel
+
+            for lang in ("c", "cpp", "py", "html"):
+                shutil.copytree(
+                    REPO / "src" / "nunavut" / "lang" / lang / "templates", root / "tpl" / lang,
+                    ignore=shutil.ignore_patterns("__pycache__", "*.py"),
+                )
 
     def scrub(self, s: str) -> str:
         for name in ("D", "C", "B", "A"):
@@ -370,10 +387,12 @@ def execute(
         os.chdir(cwd)
         try:
             with permset.scheduled(sched):
-                lctx = gen.language_context(lang, options)
+                user_tpl = bool(options and options.get("_tpl"))
+                lctx = gen.language_context(lang, {k: v for k, v in (options or {}).items() if k != "_tpl"} or None)
                 types = gen.read_types(pathlib.Path(ns_dir), [pathlib.Path(x) for x in lookups])
                 ns = build_namespace_tree(types, ns_dir, out_s, lctx)
-                g, sg = create_default_generators(ns)
+                kw = {"templates_dir": pathlib.Path(_spelled(root / "tpl" / lang, cwd, spelling))} if user_tpl else {}
+                g, sg = create_default_generators(ns, **kw)
                 support_paths = [rel(p) for p in sg.generate_all(False, True, not ser, False)]
                 gen_paths = [rel(p) for p in g.generate_all(False, True, not ser, False)]
             ns_paths = [rel(p) for _, p in ns.get_all_namespaces()]
@@ -833,6 +852,8 @@ def cli_args(cfg: Cfg, root: pathlib.Path, gnt: bool = False, user_templates: ty
         args += ["--generate-namespace-types"]
         if user_templates is not None:
             args += ["--templates", str(user_templates)]
+    elif options and options.get("_tpl"):
+        args += ["--templates", str(root / "tpl" / lang)]
     return args + [str(root / "in" / nsdef["root"])]
 
 
